@@ -119,28 +119,19 @@ theorem failures_are_the_references (env : Env) (net : Net) (op : Op) (f : Fail)
         refStep net.acceptConnections a env (slot net.peers a) lop = .error f :=
   step_err hi hok hs
 
-/-- `accept` of a peer that is pending acceptance never hits the endpoint's own assertions: it
-fails only if the connection's handling of the canned connect request does (random source
-exhausted) -/
-theorem accept_of_pending_peer (env : Env) (net : Net) (pid : Nat) (p : Peer) (f : Fail)
-    (hl : lookup net.peers pid = some p) (hp : p.conn.state = .unconnected)
-    (hs : step env net (.accept pid) = .error f) :
-    Conn6.feed env p.conn (fun _ => some (connectPacket p.token)) = .error f
-      ∨ ∃ c o, Conn6.feed env p.conn (fun _ => some (connectPacket p.token)) = .ok (c, o)
-          ∧ (o.warns ≠ [] ∨ o.events ≠ []) := by
-  simp only [step, accept, modifyPeer, hl, peerAccept, hp] at hs
-  cases hf : Conn6.feed env p.conn (fun _ => some (connectPacket p.token)) with
-  | error e => simp [hf] at hs; left; rw [hs]
-  | ok v =>
-    obtain ⟨c, o⟩ := v
-    right
-    refine ⟨c, o, rfl, ?_⟩
-    simp only [hf] at hs
-    by_cases hw : o.warns = []
-    · by_cases he : o.events = []
-      · simp [hw, he] at hs
-      · exact Or.inr he
-    · exact Or.inl hw
+/-- **`accept` of a pending peer always succeeds** (given a usable random source when the client
+asked for a token): it sends exactly one datagram — `ConnectAccept`, to the peer's address — and
+the peer's connection is then `Pending` with the 500 ms timer armed.  In particular the endpoint's
+own assertions in `Net::accept` cannot fire for a peer that was announced by `Connect(pid)` and not
+yet accepted or rejected, whatever datagrams arrived in between (`pending_peer_not_answered`). -/
+theorem accept_of_pending_peer_succeeds (env : Env) (net : Net) (pid : Nat) (p : Peer)
+    (hi : PInv net.peers) (hl : lookup net.peers pid = some p) (hp : p.conn.state = .unconnected)
+    (hd : p.token = true → Tw.Conn6.tokenRandom env.draws ≠ none) :
+    ∃ net' t, step env net (.accept pid) =
+        .ok (net', .unit, { sent := [(p.addr, Packet.control 0 t .connectAccept)] }) ∧
+      slot net'.peers p.addr = some (pid, { p with conn := ⟨.pending t, Timeout.after env.now sendUs⟩ }) ∧
+      (p.token = false → t = none) ∧ (p.token = true → t = Tw.Conn6.tokenRandom env.draws) :=
+  accept_pending hi hl hp hd
 
 /-! ## isolation: histories (the refinement) -/
 
